@@ -237,6 +237,34 @@ def check_C10(c):
     impl2, model2 = both(reqs2, timeout=900)
     c.add_stream(Stream("TOK extended operator set", reqs2, impl2, model2, numeric=False))
     oracle(reqs2[len(pre):], impl2[len(pre):], "extended set")
+    # use before registration: a text is tokenized first, then one of its would-be operators is registered, then the same
+    # text is tokenized again — the second result must show the operator (longest match over the *current* set; prefix-closed
+    # sets only, see KF-C10-gap). Fresh operator names, so nothing earlier in this process has looked them up.
+    hist = []
+    for op, kind_ in [("<=>", "infix"), ("contains", "infix"), ("=~", "infix"), ("~", "prefix"), ("!!", "postfix"), ("within", "infix"), ("<~", "infix")]:
+        texts = ["7 %s 3" % op, "a%sb" % op if op[0] in "+-*/^%&!=?:><|" else "a %s (b)" % op, "[x %s y, 1]" % op]
+        if op == "=~":
+            hist.append("REG\tinfix\t%s\t115\tcalc\tleft\t(arg 0)" % hx("~"))   # keep the set prefix-closed: `=~` needs … `=` is built in
+        if op == "<~":
+            pass  # `<` is built in
+        if op == "<=>":
+            pass  # `<=` is built in
+        for t_ in texts:
+            hist.append(tok_req(t_))
+        hist.append("REG\t%s\t%s\t115\tcalc\tleft\t(arg 0)" % (kind_, hx(op)))
+        for t_ in texts:
+            hist.append(tok_req(t_) + "\t#after:" + hx(op))
+    hreqs = [h_.split("\t#after:")[0] for h_ in hist]
+    himpl, hmodel = both(hreqs, timeout=300)
+    c.add_stream(Stream("TOK before and after registering an operator", hreqs, himpl, hmodel, numeric=False))
+    for h_, a in zip(hist, himpl):
+        if "\t#after:" in h_:
+            op = unhx(h_.split("\t#after:")[1])
+            f = a.split("\t")
+            items = [x.split(":") for x in f[2].split()] if a.startswith("OK\tok") and len(f) > 2 and f[2] else []
+            if not any(it[0] == "0" and unhx(it[1]) == op for it in items):
+                c.violation("implementation-vs-property", "operator registered after a first use of the text is not recognised (longest match over the current set)",
+                            {"requests": hreqs[:hist.index(h_) + 1][-8:], "implementation": a, "input_text": unhx(h_.split("\t")[1]), "operator": op})
     # character probes: every scalar value (quick: all below U+3100 — every script's punctuation, all Unicode
     # white space and controls — plus every 97th above; thorough: all 1,112,064) in four scanner contexts:
     # look-ahead after a name, identifier continuation, number run, operator extension
@@ -289,6 +317,21 @@ def check_C12(c):
                              "reparsed": f[3] if len(f) > 3 else None, "expr_of_reparsed": unhx(f[4]) if len(f) > 4 and f[4] != "-" else None})
         return n_ok
     n_ok = oracle(reqs, impl)
+    # source texts built around string literals: both quote characters, backslashes (the language has no escapes: a
+    # backslash is an ordinary character), blanks, operator characters — whatever the real parser accepts must round-trip
+    def lit():
+        q = rng.choice(['"', "'"])
+        body = "".join(rng.choice(["a", "b", " ", "\\", "'", '"', "\\" + q, "+", "(", ",", "é", "\\\\"]) for _ in range(rng.below(7)))
+        return q + body + q
+    forms = ["%s", "f(%s, 1)", "[%s, %s]", "%s == %s ? 1 : 2", "x = %s", "{%s: %s}", "%s + %s", "not %s", "(%s)"]
+    texts = []
+    for _ in range(6000 if c.quick() else 120000):
+        f_ = rng.choice(forms)
+        texts.append(f_ % tuple(lit() for _ in range(f_.count("%s"))))
+    reqs3 = [expr_req(s_) for s_ in texts]
+    impl3, model3 = both(reqs3, timeout=900)
+    c.add_stream(Stream("EXPR on string-literal source texts", reqs3, impl3, model3, numeric=False))
+    n_ok += oracle(reqs3, impl3)
     # AST-direct: trees the parser can produce, built through the public enum
     ag = G.AstGen(rng.fork(), table, max_depth=5)
     asts = [ag.program() for _ in range(5000 if c.quick() else 100000)]
@@ -414,6 +457,23 @@ def check_C05(c):
     for _ in range(5000 if c.quick() else 50000):
         s = G.join_tokens(rd.program(ag.program()), rng, tight=True)
         seqs.append(G.mutate(rng, s))
+    # token-kind confusion: a separator / bracket / operator of a valid program replaced by a *string literal* (or, for
+    # word operators, nothing else changes) with the same text — "no input is accepted by treating one token as another"
+    punct = {",", ":", ";", "?", "(", ")", "[", "]", "{", "}"}
+    for _ in range(4000 if c.quick() else 60000):
+        toks = list(rd.program(ag.program()))
+        idx = [i for i, tk in enumerate(toks) if tk in punct or tk in table.infix or tk in ("++", "--", "!", "not")]
+        if not idx:
+            continue
+        i = rng.choice(idx)
+        q = rng.choice(['"', "'"])
+        toks[i] = q + toks[i] + q
+        seqs.append(" ".join(toks))
+    for a in ["1", "a", "'s'"]:
+        for sep, form in [(",", "[%s %s 2]"), (",", "f(%s %s 2)"), (":", "{%s %s 2}"), (":", "true ? %s %s 2"), ("?", "true %s 1 : 2" ), (")", "(1 %s"), ("]", "[1 %s"), ("}", "{1:2 %s")]:
+            for q in ['"', "'"]:
+                lit = q + sep + q
+                seqs.append(form % ((a, lit) if form.count("%s") == 2 else (lit,)))
     reqs = [parse_req(s) for s in seqs]
     impl, model = both(reqs, timeout=1200)
     st = Stream("G-tok/G-mut PARSE", reqs, impl, model, numeric=False)
